@@ -70,6 +70,11 @@ type Case struct {
 	IdleMs  int    `json:"idleMs,omitempty"`
 	// hist
 	Hist []HOp `json:"hist,omitempty"`
+	// names (names.go): of the three schemas of a history; of the observed schema and of the other schema of the
+	// same cluster in script / real / e2e cases (empty: "tb" / "other")
+	Names      []string `json:"names,omitempty"`
+	SchemaName string   `json:"schemaName,omitempty"`
+	OtherName  string   `json:"otherName,omitempty"`
 	// e2eshape: the request shapes to send (empty = all)
 	Shapes []string `json:"shapes,omitempty"`
 }
@@ -140,7 +145,7 @@ func (c *scriptClock) add(d time.Duration)  { c.mu.Lock(); c.now = c.now.Add(d);
 // ---------------------------------------------------------------------------------------------
 // the real code, behind one small interface for both entry paths
 
-const schemaName = "tb"
+const schemaName = "tb" // the default when a case does not say
 
 func schema(name string, qps, burst int, strategy proxyv1alpha1.LimitStrategy) proxyv1alpha1.FlowControlSchema {
 	return proxyv1alpha1.FlowControlSchema{Name: name, Strategy: strategy,
@@ -165,25 +170,32 @@ type gateway struct {
 	// limiter type): the case is run again on the wall clock (wall.go). trackable: the limiter object can be read.
 	clockFailed bool
 	trackable   bool
+	name, other string
 }
 
 func (g *gateway) spec() proxyv1alpha1.FlowControl {
-	s := []proxyv1alpha1.FlowControlSchema{schema(schemaName, g.qps, g.burst, g.strategy)}
+	s := []proxyv1alpha1.FlowControlSchema{schema(g.name, g.qps, g.burst, g.strategy)}
 	if g.extra {
-		s = append(s, schema("other", 7, 9, ""))
+		s = append(s, schema(g.other, 7, 9, ""))
 	}
 	return proxyv1alpha1.FlowControl{Schemas: s}
 }
 
-func newGateway(path string, qps, burst int, clk *scriptClock) *gateway {
-	g := &gateway{path: path, clk: clk, qps: qps, burst: burst}
+func newGateway(path string, qps, burst int, clk *scriptClock, names ...string) *gateway {
+	g := &gateway{path: path, clk: clk, qps: qps, burst: burst, name: schemaName, other: "other"}
+	if len(names) > 0 && names[0] != "" {
+		g.name = names[0]
+	}
+	if len(names) > 1 && names[1] != "" && names[1] != g.name {
+		g.other = names[1]
+	}
 	if path == "sync" {
 		ctx, cancel := context.WithCancel(context.Background())
 		g.cancel = cancel
 		g.ul = flowcontrols.NewUpstreamLimiter(ctx, "c06", "", nil)
 		g.ul.Sync(g.spec())
 	} else {
-		g.fc = flowcontrol.NewFlowControl(schema(schemaName, qps, burst, ""))
+		g.fc = flowcontrol.NewFlowControl(schema(g.name, qps, burst, ""))
 	}
 	g.attach()
 	return g
@@ -192,7 +204,7 @@ func newGateway(path string, qps, burst int, clk *scriptClock) *gateway {
 // current is what a request would call TryAcquire on.
 func (g *gateway) current() flowcontrol.FlowControl {
 	if g.path == "sync" {
-		return g.ul.GetOrDefault(schemaName)
+		return g.ul.GetOrDefault(g.name)
 	}
 	return g.fc
 }
@@ -268,7 +280,7 @@ type scriptOut struct {
 func runScript(cs Case) (out scriptOut, panicMsg string) {
 	clk := &scriptClock{arrive: make(chan *pause, 64)}
 	msg, panicked := rig.Recover(func() {
-		g := newGateway(cs.Path, cs.QPS, cs.Burst, clk)
+		g := newGateway(cs.Path, cs.QPS, cs.Burst, clk, cs.SchemaName, cs.OtherName)
 		defer g.close()
 		defer func() { out.ClockFailed = g.clockFailed }()
 		for i, op := range cs.Ops {
@@ -476,7 +488,8 @@ func genScript(c *rig.Ctx, path string, raw bool) Case {
 			}
 		}
 	}
-	cs := Case{Kind: "script", Path: path, QPS: q, Burst: b}
+	nm := pickNames(r, 2)
+	cs := Case{Kind: "script", Path: path, QPS: q, Burst: b, SchemaName: nm[0], OtherName: nm[1]}
 	t := new(big.Int).Set(nowAbs)
 	switch r.Intn(8) {
 	case 0:
@@ -572,7 +585,7 @@ func runSched(cs Case) (out schedOut) {
 	clk.set(absToTime(base))
 	cur := new(big.Int).Set(base)
 	out.First, out.Last = cur.String(), cur.String()
-	g := newGateway(cs.Path, cs.QPS, cs.Burst, clk)
+	g := newGateway(cs.Path, cs.QPS, cs.Burst, clk, cs.SchemaName, cs.OtherName)
 	defer g.close()
 	if g.clockFailed {
 		out.NoClock = true
@@ -696,7 +709,8 @@ func genSched(c *rig.Ctx, path string) Case {
 	r := c.Rng
 	q := rig.Pick(r, []int{1, 2, 10, 100})
 	b := q + r.Intn(3)
-	cs := Case{Kind: "sched", Path: path, QPS: q, Burst: b, T0: nowAbs.String()}
+	nm := pickNames(r, 2)
+	cs := Case{Kind: "sched", Path: path, QPS: q, Burst: b, T0: nowAbs.String(), SchemaName: nm[0], OtherName: nm[1]}
 	id := 0
 	// drain
 	for i := 0; i < b; i++ {
@@ -840,7 +854,7 @@ func spin(g *gateway, conc int, dur time.Duration, resync bool) (calls, admitted
 func runReal(c *rig.Ctx, cs Case) (out realOut, f *failure) {
 	msg, panicked := rig.Recover(func() {
 		out.T0 = mono() // before the bucket exists
-		g := newGateway(cs.Path, cs.QPS, cs.Burst, nil)
+		g := newGateway(cs.Path, cs.QPS, cs.Burst, nil, cs.SchemaName, cs.OtherName)
 		defer g.close()
 		switch cs.Pattern {
 		case "spin", "resync":
@@ -959,6 +973,10 @@ func realPatterns(c *rig.Ctx) []Case {
 			cs.Pattern, cs.Conc, cs.DurMs = "spin", rig.Pick(r, []int{1, 2, 4, 16, 32, 64}), 300+r.Intn(1400)
 		}
 		fixed = append(fixed, cs)
+	}
+	for i := range fixed {
+		nm := pickNames(c.Rng, 2)
+		fixed[i].SchemaName, fixed[i].OtherName = nm[0], nm[1]
 	}
 	return fixed
 }
